@@ -10,7 +10,7 @@ ID = "C04"
 RULE = ("Mode G: every connective formula (All Any AtLeast(k>=1) AtMost Xor XNor Imply Not; with the explicitly signed AtLeast forms in "
         "the 's' families) of nesting depth <=2 with <=2(3) arguments over boolean leaves, plus the negation closure Not(X), Imply(X,z), "
         "Imply(z,X), XNor(X,z) of every depth-2 X, each built four ways (constructors over puan.variable, constructors over str ids, AtLeast/AtMost fed with one-shot iterators of str ids, "
-        "plog.from_json of an independently written JSON document incl. no-type / 'Proposition' / 'Variable' forms), plus every rule "
+        "plog.from_json of an independently written JSON document incl. no-type / 'Proposition' / 'Variable' forms, parsed twice from one dictionary object), plus every rule "
         "dictionary of the cicJE grammar; x all 0/1 assignments. oracle = boolean connective semantics written directly on booleans; "
         "non-trivial = distinct formula with a non-constant truth table")
 ASSUMPTIONS = [
@@ -168,8 +168,17 @@ def check_formula(f, acc, fam, k, only_way=None):
         case = {"fam": fam, "k": k, "ast": f, "way": way}
         try:
             if way == "json":
-                doc = json.loads(json.dumps(to_json_doc(f, k)))
+                text = json.dumps(to_json_doc(f, k))
+                doc = json.loads(text)
                 obj = pg.from_json(doc)
+                # a kept rule document parsed again: the parser may not consume the caller's dictionary; every second formula is
+                # evaluated on the SECOND parse of the same dictionary object
+                again = pg.from_json(doc)
+                if doc != json.loads(text):
+                    acc.violation(None, case, {"what": "from_json changed the caller's JSON document", "formula": show(f), "before": text, "after": json.dumps(doc)})
+                    continue
+                if k % 2 == 1:
+                    obj = again
             else:
                 obj, _ = bind(f, leaf_as_str=(way in ("str", "iter")), as_iter=(way == "iter"))
             acc.n("transitions")
